@@ -280,9 +280,10 @@ def r2_reductions(ck, prog, run):
     take_along_rule(ck, prog, ta)
     # ... and the producers of those flat indices must count in the same logical C order: flattening the keys with order="K"/"A"/"F"
     # numbers the elements by memory layout, which differs for transposed / Fortran-ordered / sliced phase arrays
-    n_flat = 0
+    n_flat = n_prod = 0
     for nm in ("argsort", "argmin", "argmax", "sort", "min", "max"):
         fm = prog.func("Phase." + nm)
+        n_prod += 1
         for c in ast.walk(fm.node):
             if not (isinstance(c, ast.Call) and isinstance(c.func, ast.Attribute) and c.func.attr in ("ravel", "flatten", "reshape")):
                 continue
@@ -295,7 +296,9 @@ def r2_reductions(ck, prog, run):
             okc = order is None or (isinstance(order, ast.Constant) and order.value == "C")
             ck.same("R2", fm.where, norm(c)[:80], "keys and values are flattened in logical C order (the order np.unravel_index(i, shape) assumes), not in memory order",
                     okc, found=None if okc else f"order={norm(order)}", nontrivial=True)
-    run.floor("R2", "flattening calls in the index producers", n_flat, 2)
+    if n_flat == 0:
+        ck.same("R2", prog.func("Phase.argsort").where, "Phase index producers", "no flattening call with an order argument in the index producers", True)
+    run.floor("R2", "index producers examined for flattening order", n_prod, 6)
 
 
 def take_along_rule(ck, prog, ta):
